@@ -227,16 +227,46 @@ func runRelayOnce(c Case, bound time.Duration) (v kit.Verdict, slow bool) {
 	bc, bs := build(c.C), build(c.S)
 	opsC, opsS := opsFor(c, "c", c.C, bc), opsFor(c, "s", c.S, bs)
 
-	if err := playOps(cl, opsC, bound); err != nil {
+	if c.Neighbour != "" && !c.Late {
+		half := (len(opsC) + 1) / 2
+		if err := playOps(cl, opsC[:half], bound); err != nil {
+			return kit.Failf("C11/relay/setup/client-write-failed", "%v", err), true
+		}
+		// the factory is asked per stream: once the server has seen the judged call's HEADERS its
+		// processors exist, and the neighbour's are pointed at a recorder nobody reads
+		sv.Wait(bound, func(r *h2kit.Rec) bool { return len(r.Streams[1]) > 0 || r.Done })
+		cur = &streamRun{c: c}
+		cl.WriteHeaders(h2kit.HeadersSpec{Stream: 3, Pad: -1, Fields: []h2kit.Field{{N: ":method", V: "POST"}, {N: ":scheme", V: "https"},
+			{N: ":path", V: "/verif.Svc/Other"}, {N: ":authority", V: "verif.example"}, {N: "content-type", V: "application/grpc"},
+			{N: "te", V: "trailers"}, {N: "grpc-encoding", V: c.Neighbour}}})
+		if c.Neighbour == "gzip" {
+			z := compress("gzip", 0, "", []byte("neighbour"))
+			cl.WriteData(3, append([]byte{1, 0, 0, 0, byte(len(z))}, z...), -1, true)
+		} else {
+			cl.WriteData(3, []byte{1, 0, 0, 0, 4, 0x28, 0xb5, 0x2f, 0xfd}, -1, true)
+		}
+		opsRest := opsC[half:]
+		if err := playOps(cl, opsRest, bound); err != nil {
+			// the write side of the in-memory connection fails once the relay has closed it
+			v.Addf("C11/relay/"+neighbourShape(c)+"/call-in-progress-cut-off", "through h2.Config.Proxy: after a second stream with grpc-encoding %q was opened the client could not finish the request of the call in progress: %v", c.Neighbour, err)
+			return v, false
+		}
+	} else if err := playOps(cl, opsC, bound); err != nil {
 		return kit.Failf("C11/relay/setup/client-write-failed", "%v", err), true
 	}
 	gotHeaders := func(r *h2kit.Rec) bool { return len(r.Streams[1]) > 0 || r.Done }
 	if !sv.Wait(bound, gotHeaders) {
+		if ret, _ := sess.ProxyReturned(0); ret && c.Neighbour != "" && !c.Late {
+			return kit.Failf("C11/relay/"+neighbourShape(c)+"/call-in-progress-cut-off", "through h2.Config.Proxy: a second stream with grpc-encoding %q was opened while the call was in progress; the session ended before the request reached the server", c.Neighbour), false
+		}
 		v.Addf("C11/relay/request/request-headers-never-reached-the-server", "nothing of stream 1 reached the server within %v", bound)
 		return v, true
 	}
 	grantLate(sv, len(bc.stream))
 	if err := playOps(sv, opsS, bound); err != nil {
+		if c.Neighbour != "" && !c.Late {
+			return kit.Failf("C11/relay/"+neighbourShape(c)+"/call-in-progress-cut-off", "through h2.Config.Proxy: a second stream with grpc-encoding %q was opened while the call was in progress; the server could not answer the call any more: %v", c.Neighbour, err), false
+		}
 		return kit.Failf("C11/relay/setup/server-write-failed", "%v", err), true
 	}
 	grantLate(cl, len(bs.stream))
@@ -258,7 +288,22 @@ func runRelayOnce(c Case, bound time.Duration) (v kit.Verdict, slow bool) {
 	for i := range v {
 		v[i].Msg = "through h2.Config.Proxy: " + v[i].Msg
 	}
+	if c.Neighbour != "" && !c.Late && len(v) > 0 {
+		over := false
+		cl.With(func(r *h2kit.Rec) { over = r.Done })
+		if ret, _ := sess.ProxyReturned(0); ret || over {
+			// the whole session ended: one failure, named after what provoked it
+			return kit.Failf("C11/relay/"+neighbourShape(c)+"/call-in-progress-cut-off", "through h2.Config.Proxy: a second stream with grpc-encoding %q was opened while the call was in progress; the session ended and the call lost: %s (and %d more)", c.Neighbour, v[0].Msg, len(v)-1), false
+		}
+	}
 	return v, slow
+}
+
+func neighbourShape(c Case) string {
+	if normEnc(c.Neighbour) == "" {
+		return "neighbour-stream-with-unknown-grpc-encoding"
+	}
+	return "neighbour-stream-with-known-grpc-encoding"
 }
 
 // ---------------------------------------------------------------- cases
@@ -320,6 +365,9 @@ func genRelay(t *rapid.T) Case {
 	plain := !isGRPC(c.CT)
 	c.Late = rapid.IntRange(0, 2).Draw(t, "late") == 0
 	c.Copy = rapid.IntRange(0, 3).Draw(t, "copy") == 0
+	if !c.Late && isGRPC(c.CT) && rapid.IntRange(0, 3).Draw(t, "neighbour") == 0 {
+		c.Neighbour = rapid.SampledFrom([]string{"zstd", "br", "GZIP", "lz4", "gzip"}).Draw(t, "neighbour_enc")
+	}
 	c.C = genRelayDir(t, "c", []string{"last", "last", "separate"}, plain, c.Late)
 	c.S = genRelayDir(t, "s", []string{"trailers", "trailers", "last", "separate"}, plain, c.Late)
 	return c
@@ -346,6 +394,9 @@ func relayClasses(c Case) []string {
 	}
 	if exact {
 		out = append(out, "end-stream-on-message-filling-its-frames-exactly")
+	}
+	if c.Neighbour != "" && !c.Late {
+		out = append(out, neighbourShape(c))
 	}
 	if c.Late {
 		out = append(out, "receiver-returns-credit-late")
@@ -409,13 +460,19 @@ func relayEdges(yield func(Case) bool) {
 			return
 		}
 	}
+	for _, enc := range []string{"zstd", "GZIP", "gzip"} {
+		m := []Msg{{N: 30, Seed: 3, Kind: "t"}, {N: 300, Seed: 4, Kind: "t"}}
+		if !yield(Case{CT: "application/grpc", Neighbour: enc, C: Dir{Msgs: m, Cuts: []int{7, 50, 100}, End: "last"}, S: Dir{Msgs: m, End: "trailers"}}) {
+			return
+		}
+	}
 	four := []Msg{{N: 20000, Seed: 1, Kind: "t"}, {N: 20000, Seed: 2, Kind: "t"}, {N: 20000, Seed: 3, Kind: "t"}, {N: 10000, Seed: 4, Kind: "t"}}
 	yield(Case{CT: "application/grpc", Late: true, C: Dir{Msgs: four, Cuts: []int{20005, 40010, 60015}, End: "last"}, S: Dir{Enc: "gzip", Msgs: four, End: "last"}})
 }
 
 var propRelayEdges = &kit.Prop[Case]{
 	ID: "C11", Name: "relay-frame-size-edges",
-	Rule: "exhaustive over a fixed matrix: length-prefixed message of 16383, 16384, 16385, 32768, 49151 bytes (alone and behind a small message) x END_STREAM placements (last/last, separate/trailers, last/separate) in both directions through h2.Config.Proxy, plus JSON streams with plain bodies of those lengths (51 sessions). Non-trivial as for reframe.",
+	Rule: "exhaustive over a fixed matrix: length-prefixed message of 16383, 16384, 16385, 32768, 49151 bytes (alone and behind a small message) x END_STREAM placements (last/last, separate/trailers, last/separate) in both directions through h2.Config.Proxy, plus JSON streams with plain bodies of those lengths (54 sessions). Non-trivial as for reframe.",
 	Run:  runRelay, NonTrivial: nontrivial, Classes: relayClasses,
 }
 
